@@ -484,6 +484,7 @@ type Clause struct {
 	// "label uses a,b: expr": only the labelled invariant clauses a, b (and this clause itself) are hypotheses
 	HasUses bool
 	Uses    []string
+	Callee  string // atcall: callee key, optionally with "#n"
 }
 
 var usesRe = regexp.MustCompile(`^(\w+)\s+uses\s*([\w,\s]*):\s`)
@@ -523,6 +524,7 @@ type Contract struct {
 	Params   []string
 	Requires []*Clause
 	Ensures  []*Clause
+	AtCalls  []*Clause // site obligations: atcall "callee#n" label: cond
 	Reveal   []string  // opaque axioms available when verifying this function
 	AtReturn []*Clause // like ensures, but the function's locals are in scope; checked at returns, never assumed by callers
 	Lets     []struct {
@@ -801,6 +803,22 @@ func parseSpecFile(src, prefix, file string, assumed bool) (*SpecFile, error) {
 				return nil, fail(fmt.Errorf("pure outside contract"))
 			}
 			cur.HasMod = true
+		case "atcall":
+			// atcall[tags] "callee#n" label: cond
+			if cur == nil || !strings.HasPrefix(rest, "\"") {
+				return nil, fail(fmt.Errorf("atcall \"callee#n\" label: cond (inside a contract)"))
+			}
+			end := strings.Index(rest[1:], "\"")
+			if end < 0 {
+				return nil, fail(fmt.Errorf("atcall: unterminated callee"))
+			}
+			callee := rest[1 : 1+end]
+			label, hasUses, uses, body := splitLabel(strings.TrimSpace(rest[end+2:]))
+			e, err := parseExpr(body)
+			if err != nil {
+				return nil, fail(err)
+			}
+			cur.AtCalls = append(cur.AtCalls, &Clause{Kind: "atcall", Tags: tags, Src: body, E: e, Name: label, Line: ll.L, HasUses: hasUses, Uses: uses, Callee: callee})
 		case "reveal":
 			if cur == nil {
 				return nil, fail(fmt.Errorf("reveal outside contract"))
